@@ -213,6 +213,18 @@ def run_check(modname, argv):
         digests.extend(r.get("digests", []))
         nontrivial.extend(r.get("nontrivial", []))
 
+    if hasattr(mod, "analyse") and results and not errors:
+        # cross-worker oracle (e.g. C10 compares the digests of all interpreters)
+        try:
+            extra = mod.analyse(tasks, results)
+            merge_stats(stats, extra.get("stats", {}))
+            violations.extend(extra.get("violations", []))
+            samples.extend(extra.get("samples", []))
+            digests.extend(extra.get("digests", []))
+            nontrivial.extend(extra.get("nontrivial", []))
+        except BaseException:
+            errors.append({"error": "analyse: " + traceback.format_exc(), "task": None})
+
     if args.digest_only:
         print("DIGEST %s" % stable_hash([r.get("digests", []) for r in results]))
         print("PLANDIGEST %s" % stable_hash([r.get("plan_digests", []) for r in results]))
